@@ -8,7 +8,7 @@ NAMES = ['n', 'n2', 'o']
 MUTABLE = ['main', 'd1/a', 'd1/b', 'd2/a']
 IGNORED = ['d1/.hidden', 'd1/sub']
 KINDS = ['new', 'old', 'alias', 'both', 'fixed']
-VARIANTS = ['plain', 'renamed', 'same', 'split', 'renamed_same', 'same_same', 'removal']
+VARIANTS = ['plain', 'renamed', 'same', 'split', 'renamed_same', 'same_same', 'removal', 'renamed_any', 'same_any', 'any_new']
 
 
 def stamp(f, t):
@@ -54,6 +54,12 @@ def defaults_for(variant, style=0, reason='r', since='s'):
     if variant == 'same':
         return [policy.RuleDefault('n', new_s, scope_types=sc, deprecated_rule=policy.DeprecatedRule(
             'n', old_s, deprecated_reason=reason, deprecated_since=since))]
+    if variant in ('renamed_any', 'same_any'):
+        # the deprecated default is the empty check string (always allow)
+        return [policy.RuleDefault('n', new_s, scope_types=sc, deprecated_rule=policy.DeprecatedRule(
+            'o' if variant == 'renamed_any' else 'n', ['', '@', '@ or @'][style % 3], deprecated_reason=reason, deprecated_since=since))]
+    if variant == 'any_new':
+        return [policy.RuleDefault('n', ['', '@'][style % 2], deprecated_rule=dep, scope_types=sc)]
     if variant == 'same_same':
         return [policy.RuleDefault('n', new_s, scope_types=sc, deprecated_rule=policy.DeprecatedRule(
             'n', new_s, deprecated_reason=reason, deprecated_since=since))]
@@ -115,6 +121,11 @@ def apply_fs(box, ev):
         return {'op': 'ignored', 'f': f, 't': t}
     if not box.exists(f):
         return None
+    if op == 'replace':
+        if '/' not in f or (ev[3] and box.mtime(f) <= 1):
+            return None
+        t = box.replace(f, content(ev[2], f, box.clock + 1), ev[3])
+        return {'op': 'replace', 'f': f, 'kind': ev[2], 'older': 1 if ev[3] else 0, 't': t}
     t = getattr(box, op)(f)
     return {'op': op, 'f': f, 't': t}
 
@@ -160,6 +171,7 @@ class Live:
             rec = {'op': 'load', 'force': 1 if ev[1] else 0, 'raised': 0, 'dec': {n: [] for n in NAMES},
                    'fresh': {n: [] for n in NAMES}, 'printsame': 1, 'shared': 1, 'scopeblk': 1}
             rec['warnon'] = 1 if self.warn else 0
+            rec['roles'] = list(self.roles)
             rec['warn'] = []
             try:
                 import warnings as _w
@@ -202,7 +214,7 @@ class Live:
             return None
         for lv in self.peers:
             lv.synced = False
-            if r['op'] in ('write', 'ignored'):
+            if r['op'] in ('write', 'ignored', 'replace'):
                 lv.roles.append(stamp(r['f'], r['t']))
                 lv.roles.append(stamp(r['f'], r['t']) + '#2')
             lv.trace.append(dict(r))
@@ -303,4 +315,4 @@ def all_histories(depth, ops):
 
 
 FS_OPS = [('write', f, k) for f in MUTABLE for k in KINDS] + [(op, f) for f in MUTABLE for op in ('empty', 'touch', 'delete')] + \
-         [('ignored', f) for f in IGNORED]
+         [('ignored', f) for f in IGNORED] + [('replace', f, k, o) for f in MUTABLE if '/' in f for k in ('new', 'old') for o in (False, True)]
